@@ -97,6 +97,9 @@ func WirePacket(r *rand.Rand, maxOpts int) ([]byte, *ref4.P4) {
 	n := r.IntN(maxOpts + 1)
 	if maxOpts >= 4 && r.IntN(12) == 0 {
 		n = 20 + r.IntN(50) // a long options area: dozens of options, hence dozens of instances and codes that come back late
+		if r.IntN(3) == 0 {
+			n = 165 + r.IntN(140) // ... or hundreds (more instances than there are codes, or than fit a 576-octet packet)
+		}
 	}
 	type inst struct {
 		c byte
